@@ -10,6 +10,7 @@ CONSTANTS
   AllowNil = TRUE
   ChainOnly = FALSE
   WriteNewest = FALSE
+  AllowCopy = FALSE
   EarlyStop = TRUE
   Emit = TRUE
 INVARIANTS ViewsOK Compose ContigIsRun Live
